@@ -469,3 +469,202 @@ Lemma sse_addsub16 p x0 x1 x2 x3 x4 x5 x6 x7 y0 y1 y2 y3 y4 y5 y6 y7 : 0 < p -> 
   gen_sse_submod_u16 p [mk16 x0 x1; mk16 x2 x3; mk16 x4 x5; mk16 x6 x7] [mk16 y0 y1; mk16 y2 y3; mk16 y4 y5; mk16 y6 y7] =
     [mk16 (submod 16 p x0 y0) (submod 16 p x1 y1); mk16 (submod 16 p x2 y2) (submod 16 p x3 y3); mk16 (submod 16 p x4 y4) (submod 16 p x5 y5); mk16 (submod 16 p x6 y6) (submod 16 p x7 y7)].
 Proof. intros; split; [apply sse_addmod16 | apply sse_submod16]; assumption. Qed.
+
+(* ================= AVX2, 16-bit limbs: eight words = sixteen lanes.  Stated in two levels: the kernel is the per-WORD function mapped
+   over the register (any register content), and the per-word function acts lane-wise on mk16 lo hi (add16_word_ok, bfly16_word_ok) ================= *)
+Ltac list8 X := let H := fresh in
+  destruct X as [|?x0 [|?x1 [|?x2 [|?x3 [|?x4 [|?x5 [|?x6 [|?x7 [|? ?]]]]]]]]]; intros H; try (cbn in H; discriminate H); clear H.
+
+Theorem avx2_addmod16_words p X Y : length X = 8%nat -> length Y = 8%nat -> gen_avx2_addmod_u16 p X Y = map2 (add16_word p) X Y.
+Proof. revert X Y. intros X Y. list8 X. list8 Y. vnorm. cbv beta zeta delta [add16_word k16]. reflexivity. Qed.
+
+Definition sub16_word (p wx wy : Z) : Z := add16_word p wx (op16 (fun x y => (x - y) mod 65536) (k16 (sw 16 p)) wy).
+Theorem avx2_submod16_words p X Y : length X = 8%nat -> length Y = 8%nat -> gen_avx2_submod_u16 p X Y = map2 (sub16_word p) X Y.
+Proof. intros HX HY. revert HX HY. list8 X. list8 Y. vnorm. cbv beta zeta delta [sub16_word add16_word k16]. reflexivity. Qed.
+Lemma sub16_word_ok p a b c d : 0 < p -> 2 * p <= 2 ^ 16 -> 0 <= a < p -> 0 <= b < p -> 0 <= c < p -> 0 <= d < p ->
+  sub16_word p (mk16 a b) (mk16 c d) = mk16 (submod 16 p a c) (submod 16 p b d).
+Proof.
+  intros Hp H2 Ha Hb Hc Hd. change (2 ^ 16) with 65536 in *. unfold sub16_word, submod, wr. change (2 ^ 16) with 65536.
+  assert (P : sw 16 p mod 65536 = p) by (change 65536 with (2 ^ 16); rewrite sw_mod by lia; apply Z.mod_small; change (2 ^ 16) with 65536; lia).
+  unfold k16. rewrite P. rewrite (op16_mk _ p p c d) by lia.
+  assert (R : forall y, 0 <= y < p -> 0 <= (p - y) mod 65536 <= p) by (intros y Hy; rewrite Z.mod_small by lia; lia).
+  pose proof (R c Hc). pose proof (R d Hd).
+  rewrite add16_word_ok by lia. rewrite !add16_lane_ok by (change (2 ^ 16) with 65536; lia). reflexivity.
+Qed.
+Lemma add16_word_lanes p a b c d : 0 < p -> 2 * p <= 2 ^ 16 -> 0 <= a < p -> 0 <= b < p -> 0 <= c < p -> 0 <= d < p ->
+  add16_word p (mk16 a b) (mk16 c d) = mk16 (addmod 16 p a c) (addmod 16 p b d).
+Proof. intros Hp H2 Ha Hb Hc Hd. change (2 ^ 16) with 65536 in *. rewrite add16_word_ok by lia. rewrite !add16_lane_ok by (change (2 ^ 16) with 65536; lia). reflexivity. Qed.
+
+Fixpoint map4 (f : Z -> Z -> Z -> Z -> Z * Z) (a b c d : list Z) : list (Z * Z) :=
+  match a, b, c, d with x :: a', y :: b', z :: c', t :: d' => f x y z t :: map4 f a' b' c' d' | _, _, _, _ => [] end.
+Theorem avx2_bfly16_words p A B I Wt : length A = 8%nat -> length B = 8%nat -> length I = 8%nat -> length Wt = 8%nat ->
+  gen_avx2_ntt_loop_body_u16 p A B I Wt = (map fst (map4 (bfly16_word p) A B I Wt), map snd (map4 (bfly16_word p) A B I Wt)).
+Proof.
+  intros HA HB HI HW. revert HA HB HI HW. list8 A. list8 B. list8 I. list8 Wt.
+  vnorm. cbv beta iota zeta delta [map4 map fst snd bfly16_word k16]. replace (p * 2 ^ 1) with (2 * p) by (change (2 ^ 1) with 2; ring). reflexivity.
+Qed.
+Theorem sse_bfly16_words p A B I Wt : length A = 4%nat -> length B = 4%nat -> length I = 4%nat -> length Wt = 4%nat ->
+  gen_sse_ntt_loop_body_u16 p A B I Wt = (map fst (map4 (bfly16_word p) A B I Wt), map snd (map4 (bfly16_word p) A B I Wt)).
+Proof.
+  intros HA HB HI HW. revert HA HB HI HW.
+  destruct A as [|a0 [|a1 [|a2 [|a3 [|? ?]]]]]; intros H; try (cbn in H; discriminate H); clear H.
+  destruct B as [|b0 [|b1 [|b2 [|b3 [|? ?]]]]]; intros H; try (cbn in H; discriminate H); clear H.
+  destruct I as [|i0 [|i1 [|i2 [|i3 [|? ?]]]]]; intros H; try (cbn in H; discriminate H); clear H.
+  destruct Wt as [|w0 [|w1 [|w2 [|w3 [|? ?]]]]]; intros H; try (cbn in H; discriminate H); clear H.
+  vnorm. cbv beta iota zeta delta [map4 map fst snd bfly16_word k16]. reflexivity.
+Qed.
+(* per word: both lanes are the scalar lazy butterfly, for ALL lane contents *)
+Theorem bfly16_word_lanes p a a' b b' i i' w w' : 0 < p -> 4 * p <= 2 ^ 16 ->
+  0 <= a < 2 ^ 16 -> 0 <= a' < 2 ^ 16 -> 0 <= b < 2 ^ 16 -> 0 <= b' < 2 ^ 16 -> 0 <= i < 2 ^ 16 -> 0 <= i' < 2 ^ 16 -> 0 <= w < 2 ^ 16 -> 0 <= w' < 2 ^ 16 ->
+  bfly16_word p (mk16 a a') (mk16 b b') (mk16 i i') (mk16 w w') =
+  (mk16 (fst (lane_bfly 16 p w i a b)) (fst (lane_bfly 16 p w' i' a' b')), mk16 (snd (lane_bfly 16 p w i a b)) (snd (lane_bfly 16 p w' i' a' b'))).
+Proof.
+  intros Hp H4 Ha Ha' Hb Hb' Hi Hi' Hw Hw'. rewrite <- !bfly16_lane by assumption. cbn [fst snd]. change (2 ^ 16) with 65536 in *. apply bfly16_word_ok; assumption.
+Qed.
+
+(* ================= 16-bit Shoup kernels: widen to 32-bit words (cvtepu16), 32-bit lane arithmetic, pack back with unsigned saturation ================= *)
+(* one 32-bit word of finish(): x, y, q are 16-bit lanes zero-extended *)
+Definition ms16_w (p x y q : Z) : Z :=
+  let res := ((x * y) mod W32 - (q * (p mod W32)) mod W32) mod W32 in
+  (res - and32 (if sgn 32 ((res - sw 32 2147483648 mod W32) mod W32) >? sgn 32 (sw 32 (uw 32 (uw 32 (p - 2147483648) - 1)) mod W32) then W32 - 1 else 0) (p mod W32)) mod W32.
+Lemma ms16_w_lane p x y y' : 0 < p < 2 ^ 31 -> 0 <= x < 65536 -> 0 <= y < 65536 -> 0 <= y' < 65536 ->
+  sat16 (sgn 32 (ms16_w p x y (x * y' / 65536))) = lane_mulshoup16 p x y y'.
+Proof.
+  intros Hp Hx Hy Hy'. unfold ms16_w, lane_mulshoup16, ge_mask. cbv zeta. change W32 with (2 ^ 32).
+  rewrite !sw_mod by lia. unfold uw. rewrite (Z.mod_small p (2 ^ 32)) by lia. change (2147483648 mod 2 ^ 32) with (2 ^ (32 - 1)).
+  change (2 ^ 32 - 1) with (W32 - 1). rewrite land_mask by lia. change (2 ^ 16) with 65536.
+  rewrite (Z.mod_mod ((p - 2147483648) mod 2 ^ 32 - 1)) by lia. rewrite (Zminus_mod_idemp_l (p - 2147483648) 1). change 2147483648 with (2 ^ (32 - 1)).
+  reflexivity.
+Qed.
+Lemma ms16_w_range p x y q : 0 <= ms16_w p x y q < 2 ^ 32.
+Proof. unfold ms16_w. cbv zeta. change (2 ^ 32) with W32. apply Z.mod_pos_bound. reflexivity. Qed.
+
+(* the SSE kernel on a register of eight 16-bit lanes given as four words *)
+Theorem sse_mulmod_shoup16 p x0 x1 x2 x3 x4 x5 x6 x7 y0 y1 y2 y3 y4 y5 y6 y7 z0 z1 z2 z3 z4 z5 z6 z7 : 0 < p < 2 ^ 31 ->
+  Forall (fun v => 0 <= v < 65536) [x0; x1; x2; x3; x4; x5; x6; x7; y0; y1; y2; y3; y4; y5; y6; y7; z0; z1; z2; z3; z4; z5; z6; z7] ->
+  gen_sse_mulmod_shoup_u16 p [mk16 x0 x1; mk16 x2 x3; mk16 x4 x5; mk16 x6 x7] [mk16 y0 y1; mk16 y2 y3; mk16 y4 y5; mk16 y6 y7] [mk16 z0 z1; mk16 z2 z3; mk16 z4 z5; mk16 z6 z7] =
+  [mk16 (lane_mulshoup16 p x0 y0 z0) (lane_mulshoup16 p x1 y1 z1); mk16 (lane_mulshoup16 p x2 y2 z2) (lane_mulshoup16 p x3 y3 z3);
+   mk16 (lane_mulshoup16 p x4 y4 z4) (lane_mulshoup16 p x5 y5 z5); mk16 (lane_mulshoup16 p x6 y6 z6) (lane_mulshoup16 p x7 y7 z7)].
+Proof.
+  intros Hp F. repeat match goal with H : Forall _ (_ :: _) |- _ => inversion H; clear H; subst end.
+  rewrite <- !ms16_w_lane by assumption.
+  cbv beta iota zeta delta [gen_sse_mulmod_shoup_u16 gen_sse_mulmod_shoup_u16_mulhi_epu16_0 gen_sse_mulmod_shoup_u16_finish_1 gen_sse_mulmod_shoup_u16_shift8_2
+    mm_mulhi_epu16 mm_cvtepu16_epi32 cvt16 mm_srli_si128_8 blocks4 app mm_sub_epi32 mm_mullo_epi32 mm_cmpgt_epi32 mm_and mm_set1_epi32 mm_packus_epi32 map2 repeat pk].
+  repeat (rewrite op16_mk by rng).
+  assert (Z0 : lo16 0 = 0) by reflexivity. assert (Z1 : hi16 0 = 0) by reflexivity.
+  rewrite ?lo_mk, ?hi_mk by rng. rewrite ?Z0, ?Z1.
+  cbv beta zeta delta [ms16_w]. reflexivity.
+Qed.
+
+(* muladd_shoup<uint16_t>: the same with the accumulator added before the compare (there the bias is ADDED: same lane, mod 2^32) *)
+Definition ma16_w (p rop x y q : Z) : Z :=
+  let res := (rop + ((x * y) mod W32 - (q * (p mod W32)) mod W32) mod W32) mod W32 in
+  (res - and32 (if sgn 32 ((res + sw 32 2147483648 mod W32) mod W32) >? sgn 32 (sw 32 (uw 32 (uw 32 (p - 2147483648) - 1)) mod W32) then W32 - 1 else 0) (p mod W32)) mod W32.
+Lemma ma16_w_lane p rop x y y' : 0 < p < 2 ^ 31 -> 0 <= rop < 65536 -> 0 <= x < 65536 -> 0 <= y < 65536 -> 0 <= y' < 65536 ->
+  sat16 (sgn 32 (ma16_w p rop x y (x * y' / 65536))) = lane_muladdshoup16 p rop x y y'.
+Proof.
+  intros Hp Hr Hx Hy Hy'. unfold ma16_w, lane_muladdshoup16, ge_mask. cbv zeta. change W32 with (2 ^ 32).
+  rewrite !sw_mod by lia. unfold uw. rewrite (Z.mod_small p (2 ^ 32)) by lia. change (2147483648 mod 2 ^ 32) with (2 ^ (32 - 1)).
+  change (2 ^ 32 - 1) with (W32 - 1). rewrite land_mask by lia. change (2 ^ 16) with 65536.
+  rewrite (Z.mod_mod ((p - 2147483648) mod 2 ^ 32 - 1)) by lia. rewrite (Zminus_mod_idemp_l (p - 2147483648) 1). change 2147483648 with (2 ^ (32 - 1)).
+  (* adding 2^31 and subtracting 2^31 agree modulo 2^32 *)
+  set (res := (rop + ((x * y) mod 2 ^ 32 - (x * y' / 65536 * p) mod 2 ^ 32) mod 2 ^ 32) mod 2 ^ 32).
+  replace ((res + 2 ^ (32 - 1)) mod 2 ^ 32) with ((res - 2 ^ (32 - 1)) mod 2 ^ 32).
+  2:{ replace (res + 2 ^ (32 - 1)) with (res - 2 ^ (32 - 1) + 1 * 2 ^ 32) by (change (2 ^ (32 - 1)) with 2147483648; change (2 ^ 32) with 4294967296; ring).
+      rewrite Z.mod_add by lia. reflexivity. }
+  reflexivity.
+Qed.
+
+Theorem sse_muladd_shoup16 p r0 r1 r2 r3 r4 r5 r6 r7 x0 x1 x2 x3 x4 x5 x6 x7 y0 y1 y2 y3 y4 y5 y6 y7 z0 z1 z2 z3 z4 z5 z6 z7 : 0 < p < 2 ^ 31 ->
+  Forall (fun v => 0 <= v < 65536) [r0; r1; r2; r3; r4; r5; r6; r7; x0; x1; x2; x3; x4; x5; x6; x7; y0; y1; y2; y3; y4; y5; y6; y7; z0; z1; z2; z3; z4; z5; z6; z7] ->
+  gen_sse_muladd_shoup_u16 p [mk16 r0 r1; mk16 r2 r3; mk16 r4 r5; mk16 r6 r7] [mk16 x0 x1; mk16 x2 x3; mk16 x4 x5; mk16 x6 x7]
+                             [mk16 y0 y1; mk16 y2 y3; mk16 y4 y5; mk16 y6 y7] [mk16 z0 z1; mk16 z2 z3; mk16 z4 z5; mk16 z6 z7] =
+  [mk16 (lane_muladdshoup16 p r0 x0 y0 z0) (lane_muladdshoup16 p r1 x1 y1 z1); mk16 (lane_muladdshoup16 p r2 x2 y2 z2) (lane_muladdshoup16 p r3 x3 y3 z3);
+   mk16 (lane_muladdshoup16 p r4 x4 y4 z4) (lane_muladdshoup16 p r5 x5 y5 z5); mk16 (lane_muladdshoup16 p r6 x6 y6 z6) (lane_muladdshoup16 p r7 x7 y7 z7)].
+Proof.
+  intros Hp F. repeat match goal with H : Forall _ (_ :: _) |- _ => inversion H; clear H; subst end.
+  rewrite <- !ma16_w_lane by assumption.
+  cbv beta iota zeta delta [gen_sse_muladd_shoup_u16 gen_sse_muladd_shoup_u16_mulhi_epu16_0 gen_sse_muladd_shoup_u16_finish_1 gen_sse_muladd_shoup_u16_shift8_2
+    mm_mulhi_epu16 mm_cvtepu16_epi32 cvt16 mm_srli_si128_8 blocks4 app mm_add_epi32 mm_sub_epi32 mm_mullo_epi32 mm_cmpgt_epi32 mm_and mm_set1_epi32 mm_packus_epi32 map2 repeat pk].
+  repeat (rewrite op16_mk by rng).
+  assert (Z0 : lo16 0 = 0) by reflexivity. assert (Z1 : hi16 0 = 0) by reflexivity.
+  rewrite ?lo_mk, ?hi_mk by rng. rewrite ?Z0, ?Z1.
+  cbv beta zeta delta [ma16_w]. reflexivity.
+Qed.
+
+(* AVX2: 8 words in, cvtepu16 to 8 dwords, one finish over the 256-bit register, permute2x128 + castsi256_si128 + packus to 4 words *)
+Theorem avx2_mulmod_shoup16 p x0 x1 x2 x3 x4 x5 x6 x7 y0 y1 y2 y3 y4 y5 y6 y7 z0 z1 z2 z3 z4 z5 z6 z7 : 0 < p < 2 ^ 31 ->
+  Forall (fun v => 0 <= v < 65536) [x0; x1; x2; x3; x4; x5; x6; x7; y0; y1; y2; y3; y4; y5; y6; y7; z0; z1; z2; z3; z4; z5; z6; z7] ->
+  gen_avx2_mulmod_shoup_u16 p [mk16 x0 x1; mk16 x2 x3; mk16 x4 x5; mk16 x6 x7] [mk16 y0 y1; mk16 y2 y3; mk16 y4 y5; mk16 y6 y7] [mk16 z0 z1; mk16 z2 z3; mk16 z4 z5; mk16 z6 z7] =
+  [mk16 (lane_mulshoup16 p x0 y0 z0) (lane_mulshoup16 p x1 y1 z1); mk16 (lane_mulshoup16 p x2 y2 z2) (lane_mulshoup16 p x3 y3 z3);
+   mk16 (lane_mulshoup16 p x4 y4 z4) (lane_mulshoup16 p x5 y5 z5); mk16 (lane_mulshoup16 p x6 y6 z6) (lane_mulshoup16 p x7 y7 z7)].
+Proof.
+  intros Hp F. repeat match goal with H : Forall _ (_ :: _) |- _ => inversion H; clear H; subst end.
+  rewrite <- !ms16_w_lane by assumption.
+  cbv beta iota zeta delta [gen_avx2_mulmod_shoup_u16 gen_avx2_mulmod_shoup_u16_mulhi_epu16_0 gen_avx2_mulmod_shoup_u16_finish_1
+    mm_mulhi_epu16 mm256_cvtepu16_epi32 cvt16 app mm_sub_epi32 mm_mullo_epi32 mm_cmpgt_epi32 mm_and mm_set1_epi32 mm_packus_epi32 map2 repeat pk
+    mm256_permute2x128_si256 mm256_castsi256_si128 half firstn skipn].
+  change (Z.testbit (1 mod 16) 3) with false. change (Z.testbit (1 / 16) 3) with false.
+  change ((1 mod 16) mod 4 =? 0) with false. change ((1 mod 16) mod 4 =? 1) with true. change ((1 / 16) mod 4 =? 0) with true.
+  cbv beta iota delta [firstn skipn app].
+  repeat (rewrite op16_mk by rng).
+  rewrite ?lo_mk, ?hi_mk by rng.
+  cbv beta zeta delta [ms16_w]. reflexivity.
+Qed.
+
+Definition ma16_ws (p rop x y q : Z) : Z :=
+  let res := (rop + ((x * y) mod W32 - (q * (p mod W32)) mod W32) mod W32) mod W32 in
+  (res - and32 (if sgn 32 ((res - sw 32 2147483648 mod W32) mod W32) >? sgn 32 (sw 32 (uw 32 (uw 32 (p - 2147483648) - 1)) mod W32) then W32 - 1 else 0) (p mod W32)) mod W32.
+Lemma ma16_ws_lane p rop x y y' : 0 < p < 2 ^ 31 -> 0 <= rop < 65536 -> 0 <= x < 65536 -> 0 <= y < 65536 -> 0 <= y' < 65536 ->
+  sat16 (sgn 32 (ma16_ws p rop x y (x * y' / 65536))) = lane_muladdshoup16 p rop x y y'.
+Proof.
+  intros Hp Hr Hx Hy Hy'. unfold ma16_ws, lane_muladdshoup16, ge_mask. cbv zeta. change W32 with (2 ^ 32).
+  rewrite !sw_mod by lia. unfold uw. rewrite (Z.mod_small p (2 ^ 32)) by lia. change (2147483648 mod 2 ^ 32) with (2 ^ (32 - 1)).
+  change (2 ^ 32 - 1) with (W32 - 1). rewrite land_mask by lia. change (2 ^ 16) with 65536.
+  rewrite (Z.mod_mod ((p - 2147483648) mod 2 ^ 32 - 1)) by lia. rewrite (Zminus_mod_idemp_l (p - 2147483648) 1). change 2147483648 with (2 ^ (32 - 1)).
+  reflexivity.
+Qed.
+
+Theorem avx2_muladd_shoup16 p r0 r1 r2 r3 r4 r5 r6 r7 x0 x1 x2 x3 x4 x5 x6 x7 y0 y1 y2 y3 y4 y5 y6 y7 z0 z1 z2 z3 z4 z5 z6 z7 : 0 < p < 2 ^ 31 ->
+  Forall (fun v => 0 <= v < 65536) [r0; r1; r2; r3; r4; r5; r6; r7; x0; x1; x2; x3; x4; x5; x6; x7; y0; y1; y2; y3; y4; y5; y6; y7; z0; z1; z2; z3; z4; z5; z6; z7] ->
+  gen_avx2_muladd_shoup_u16 p [mk16 r0 r1; mk16 r2 r3; mk16 r4 r5; mk16 r6 r7] [mk16 x0 x1; mk16 x2 x3; mk16 x4 x5; mk16 x6 x7]
+                              [mk16 y0 y1; mk16 y2 y3; mk16 y4 y5; mk16 y6 y7] [mk16 z0 z1; mk16 z2 z3; mk16 z4 z5; mk16 z6 z7] =
+  [mk16 (lane_muladdshoup16 p r0 x0 y0 z0) (lane_muladdshoup16 p r1 x1 y1 z1); mk16 (lane_muladdshoup16 p r2 x2 y2 z2) (lane_muladdshoup16 p r3 x3 y3 z3);
+   mk16 (lane_muladdshoup16 p r4 x4 y4 z4) (lane_muladdshoup16 p r5 x5 y5 z5); mk16 (lane_muladdshoup16 p r6 x6 y6 z6) (lane_muladdshoup16 p r7 x7 y7 z7)].
+Proof.
+  intros Hp F. repeat match goal with H : Forall _ (_ :: _) |- _ => inversion H; clear H; subst end.
+  rewrite <- !ma16_ws_lane by assumption.
+  cbv beta iota zeta delta [gen_avx2_muladd_shoup_u16 gen_avx2_muladd_shoup_u16_mulhi_epu16_0 gen_avx2_muladd_shoup_u16_finish_1
+    mm_mulhi_epu16 mm256_cvtepu16_epi32 cvt16 app mm_add_epi32 mm_sub_epi32 mm_mullo_epi32 mm_cmpgt_epi32 mm_and mm_set1_epi32 mm_packus_epi32 map2 repeat pk
+    mm256_permute2x128_si256 mm256_castsi256_si128 half firstn skipn].
+  change (Z.testbit (1 mod 16) 3) with false. change (Z.testbit (1 / 16) 3) with false.
+  change ((1 mod 16) mod 4 =? 0) with false. change ((1 mod 16) mod 4 =? 1) with true. change ((1 / 16) mod 4 =? 0) with true.
+  cbv beta iota delta [firstn skipn app].
+  repeat (rewrite op16_mk by rng).
+  rewrite ?lo_mk, ?hi_mk by rng.
+  cbv beta zeta delta [ma16_ws]. reflexivity.
+Qed.
+
+(* both 16-bit Shoup kernels of one build, stated together *)
+Lemma F32_tail (P : Z -> Prop) r0 r1 r2 r3 r4 r5 r6 r7 l : Forall P (r0 :: r1 :: r2 :: r3 :: r4 :: r5 :: r6 :: r7 :: l) -> Forall P l.
+Proof. intros F. do 8 (apply Forall_inv_tail in F). exact F. Qed.
+Lemma sse_shoup16 p r0 r1 r2 r3 r4 r5 r6 r7 x0 x1 x2 x3 x4 x5 x6 x7 y0 y1 y2 y3 y4 y5 y6 y7 z0 z1 z2 z3 z4 z5 z6 z7 : 0 < p < 2 ^ 31 ->
+  Forall (fun v => 0 <= v < 65536) [r0; r1; r2; r3; r4; r5; r6; r7; x0; x1; x2; x3; x4; x5; x6; x7; y0; y1; y2; y3; y4; y5; y6; y7; z0; z1; z2; z3; z4; z5; z6; z7] ->
+  let m := mk16 in
+  gen_sse_mulmod_shoup_u16 p [m x0 x1; m x2 x3; m x4 x5; m x6 x7] [m y0 y1; m y2 y3; m y4 y5; m y6 y7] [m z0 z1; m z2 z3; m z4 z5; m z6 z7] =
+    [m (lane_mulshoup16 p x0 y0 z0) (lane_mulshoup16 p x1 y1 z1); m (lane_mulshoup16 p x2 y2 z2) (lane_mulshoup16 p x3 y3 z3);
+     m (lane_mulshoup16 p x4 y4 z4) (lane_mulshoup16 p x5 y5 z5); m (lane_mulshoup16 p x6 y6 z6) (lane_mulshoup16 p x7 y7 z7)] /\
+  gen_sse_muladd_shoup_u16 p [m r0 r1; m r2 r3; m r4 r5; m r6 r7] [m x0 x1; m x2 x3; m x4 x5; m x6 x7] [m y0 y1; m y2 y3; m y4 y5; m y6 y7] [m z0 z1; m z2 z3; m z4 z5; m z6 z7] =
+    [m (lane_muladdshoup16 p r0 x0 y0 z0) (lane_muladdshoup16 p r1 x1 y1 z1); m (lane_muladdshoup16 p r2 x2 y2 z2) (lane_muladdshoup16 p r3 x3 y3 z3);
+     m (lane_muladdshoup16 p r4 x4 y4 z4) (lane_muladdshoup16 p r5 x5 y5 z5); m (lane_muladdshoup16 p r6 x6 y6 z6) (lane_muladdshoup16 p r7 x7 y7 z7)].
+Proof. intros Hp F m. split; [apply sse_mulmod_shoup16; [exact Hp | exact (F32_tail _ _ _ _ _ _ _ _ _ _ F)] | apply sse_muladd_shoup16; assumption]. Qed.
+Lemma avx2_shoup16 p r0 r1 r2 r3 r4 r5 r6 r7 x0 x1 x2 x3 x4 x5 x6 x7 y0 y1 y2 y3 y4 y5 y6 y7 z0 z1 z2 z3 z4 z5 z6 z7 : 0 < p < 2 ^ 31 ->
+  Forall (fun v => 0 <= v < 65536) [r0; r1; r2; r3; r4; r5; r6; r7; x0; x1; x2; x3; x4; x5; x6; x7; y0; y1; y2; y3; y4; y5; y6; y7; z0; z1; z2; z3; z4; z5; z6; z7] ->
+  let m := mk16 in
+  gen_avx2_mulmod_shoup_u16 p [m x0 x1; m x2 x3; m x4 x5; m x6 x7] [m y0 y1; m y2 y3; m y4 y5; m y6 y7] [m z0 z1; m z2 z3; m z4 z5; m z6 z7] =
+    [m (lane_mulshoup16 p x0 y0 z0) (lane_mulshoup16 p x1 y1 z1); m (lane_mulshoup16 p x2 y2 z2) (lane_mulshoup16 p x3 y3 z3);
+     m (lane_mulshoup16 p x4 y4 z4) (lane_mulshoup16 p x5 y5 z5); m (lane_mulshoup16 p x6 y6 z6) (lane_mulshoup16 p x7 y7 z7)] /\
+  gen_avx2_muladd_shoup_u16 p [m r0 r1; m r2 r3; m r4 r5; m r6 r7] [m x0 x1; m x2 x3; m x4 x5; m x6 x7] [m y0 y1; m y2 y3; m y4 y5; m y6 y7] [m z0 z1; m z2 z3; m z4 z5; m z6 z7] =
+    [m (lane_muladdshoup16 p r0 x0 y0 z0) (lane_muladdshoup16 p r1 x1 y1 z1); m (lane_muladdshoup16 p r2 x2 y2 z2) (lane_muladdshoup16 p r3 x3 y3 z3);
+     m (lane_muladdshoup16 p r4 x4 y4 z4) (lane_muladdshoup16 p r5 x5 y5 z5); m (lane_muladdshoup16 p r6 x6 y6 z6) (lane_muladdshoup16 p r7 x7 y7 z7)].
+Proof. intros Hp F m. split; [apply avx2_mulmod_shoup16; [exact Hp | exact (F32_tail _ _ _ _ _ _ _ _ _ _ F)] | apply avx2_muladd_shoup16; assumption]. Qed.
